@@ -979,7 +979,13 @@ impl Engine for Text {
                 let json = format!("{{\"bits\":{}}}", l.val(a));
                 for (label, got) in &outs {
                     let exp = match *label {
-                        "encode" | "encode_bits" | "to_le_bytes" => Exp::Is(Out::Y(le.clone())),
+                        "encode" | "encode_bits" | "to_le_bytes" | "using_encoded" | "using_encoded(ref)" | "using_encoded(box)" | "using_encoded(tuple1)" | "encode(ref)" | "encode(arc)" => Exp::Is(Out::Y(le.clone())),
+                        "to_keyed_vec" | "joiner_and" => {
+                            let mut v = vec![0xAAu8];
+                            v.extend_from_slice(&le);
+                            Exp::Is(Out::Y(v))
+                        }
+                        "encoded_size(box)" => Exp::Is(Out::V(n as u128)),
                         "to_be_bytes" => Exp::Is(Out::Y(be.clone())),
                         "to_ne_bytes" => Exp::Is(Out::Y(ne.clone())),
                         "encoded_size" | "max_encoded_len" => Exp::Is(Out::V(n as u128)),
